@@ -1285,6 +1285,44 @@ class Inliner:
             inner = {"k": "If", "l": n.get("l"), "cond": c["rhs"], "then": n.get("then")}
             outer = {"k": "If", "l": n.get("l"), "cond": c["lhs"], "then": {"k": "Block", "l": n.get("l"), "s": [inner]}}
             return self.tx_stmt(outer, stack, fn)
+        # `if (A && step() == 0) <leave>` (no else, A pure, step() a member function of the same object with an effect): the
+        # step runs only when A holds, and its answer decides whether the branch is taken -
+        # `if (A) { T r = step(); if (r == 0) <leave> }`.  What comes after the if sees the step as a statement of its own.
+        if isinstance(c, dict) and c.get("k") == "Bin" and c.get("op") == "&&" and n.get("else") is None and is_pure(c.get("lhs"), self.facts) and \
+                ir.leaves_function(n.get("then")):
+            t_ = unwrap(c.get("rhs"))
+            wrap = []
+            while isinstance(t_, dict) and t_.get("k") == "Un" and t_.get("op") == "!":
+                wrap.append(t_)
+                t_ = unwrap(t_.get("e"))
+            call_, side = None, None
+            if isinstance(t_, dict) and t_.get("k") == "Bin" and t_.get("op") in ("==", "!=", "<", ">", "<=", ">="):
+                for sd, other in (("lhs", "rhs"), ("rhs", "lhs")):
+                    x_ = ir.unwrap_all_casts(t_.get(sd))
+                    if isinstance(x_, dict) and x_.get("k") == "MCall" and ir.const_value(t_.get(other)) is not None:
+                        call_, side = x_, sd
+            elif isinstance(t_, dict) and ir.unwrap_all_casts(t_) is not None and ir.unwrap_all_casts(t_).get("k") == "MCall":
+                call_, side = ir.unwrap_all_casts(t_), None
+            if call_ is not None and isinstance(call_.get("callee"), dict) and call_["callee"].get("inrepo") and \
+                    call_["callee"].get("cls") == fn.get("cls") and ir.unwrap_all_casts(call_.get("recv") or {}).get("k") == "This" and \
+                    not is_pure(call_, self.facts) and (call_.get("t") or "void").replace("const ", "") in _RESULT_INTS and \
+                    all(is_pure(a_, self.facts) for a_ in call_.get("args", [])):
+                vid = self.fresh()
+                ty = (call_.get("t") or "").replace("const ", "")
+                decl = {"k": "Decl", "l": n.get("l"), "vars": [{"n": "step", "id": vid, "t": ty, "tw": ty, "l": n.get("l"), "init": call_}]}
+                ref = {"k": "Ref", "d": "local", "id": vid, "n": "step", "t": ty, "l": n.get("l")}
+
+                def rep_(x):
+                    if isinstance(x, list):
+                        return [rep_(y) for y in x]
+                    if not isinstance(x, dict):
+                        return x
+                    if x is call_:
+                        return ref
+                    return {kk: (rep_(vv) if isinstance(vv, (dict, list)) else vv) for kk, vv in x.items()}
+                inner = {"k": "If", "l": n.get("l"), "cond": rep_(c["rhs"]), "then": n.get("then")}
+                outer = {"k": "If", "l": n.get("l"), "cond": c["lhs"], "then": {"k": "Block", "l": n.get("l"), "s": [decl, inner]}}
+                return [outer]
         # a member of a helper's by-value result
         neg = False
         u = c
